@@ -17,6 +17,7 @@ KINDS = {
     "minp": [("node", "node"), ("size", "lim")],            # minimal-space without skipping (plain)
     "aseeds": [("size", "lim")],
     "target": [("target", "target"), ("size", "lim")],
+    "control": [("target", "target"), ("all", "flag")],      # succession_control towards a symbolic target
     "blockp": [("size", "lim"), ("maa", "flag")],           # block expansion without source shortcuts (plain)
     "block": [("size", "lim"), ("maa", "flag"), ("optsrc", "flag"), ("exact", "flag")],
     "scc": [("maa", "flag")],
